@@ -138,4 +138,19 @@ CHECKS['C16'] = {
     'level_note': 'Sampling of the input space; coverage feedback (libFuzzer) is a different technique family and is not used. Hang = no CPU/tap/tick progress for 6 s after a 60 s deadline; a slow run is inconclusive.',
 }
 
+CHECKS['C19'] = {
+    'level': 'exploration',
+    'exhaustive': False,
+    'rule': 'a 64-value boundary grid over all column types (integer extremes, 2^24+-1, 2^53+-1, 2^63, u64::MAX, -0.0, NaN, infinities, subnormals, empty / prefix / NUL / multibyte / 10 kB text, NULL): every single value, '
+            'every ordered pair and every triple is checked (exhaustive on the grid), plus random values of every type; laws: == reflexive / symmetric / transitive, == implies equal hash, order antisymmetric / transitive / total within a type / consistent with ==, '
+            'numeric == and order equal the exact mathematical comparison (done in i128 / exact f64 decomposition), store-then-load identity, cast-to-own-kind identity. SQL leg: single-column tables; ORDER BY, DISTINCT, GROUP BY, =, IN and the unique index must agree with the exact order. '
+            'Distinct non-trivial = distinct single values that went through round-trip/cast checks + distinct SQL probes.',
+    'legs': {'quick': [{'flavour': 'prod', 'shards': 16}], 'thorough': [{'flavour': 'prod', 'shards': 16}]},
+    'min_evaluations': {'quick': 500000, 'thorough': 5000000},
+    'assumptions': ['mathematical comparison is computed by the harness in exact arithmetic', 'SQL-leg integers stay within +-2^53 because SQL number literals are f64 in the lexer (finding noted in DESIGN.md)'],
+    'technique': 'law-style runtime monitor over exhaustive boundary grids (pairs, triples) and random values with an exact-arithmetic oracle; SQL cross-check of ORDER BY / DISTINCT / GROUP BY / IN / index lookup',
+    'level_text': 'All 64 + 64^2 + 64^3 grid cases plus 320k (quick) / 6.4M (thorough) random cases are evaluated against the law set; SQL probes on 1600+ single-column tables. Exhaustive on the grid only.',
+    'level_note': 'Signatures carry the special-value atom (nan, zero, beyond-2^53) when one explains the case, otherwise the type names; the six open findings are exactly those atoms.',
+}
+
 NOT_APPLICABLE = [{'property_id': c, 'reason': 'check not built yet in this session (work in progress, see DESIGN.md)'} for c in ALL if c not in CHECKS]
